@@ -29,7 +29,7 @@ Next == /\ NoDangling(s) /\ Len(h) < 3 * MaxLen
            \/ \E g \in {1, 2}, x \in Ids4 : x \in s.ref[g]["member"] /\ Step(2, g, x, SetRef(s, g, "member", s.ref[g]["member"] \ {x}).st)
            \/ \E x \in {1, 2, 4} : Step(3, 3, x, SetRef(s, 3, "refers", {x}).st)
            \/ \E D \in SUBSET {x \in Ids4 : s.lv[x] = "live"} : Cardinality(D) \in {1, 2} /\ Step(4, SetCode(D), 0, Delete(s, D))
-           \/ \E x \in Ids4 : s.lv[x] = "recycled" /\ Step(5, x, 0, Revive(s, x).st)
+           \/ \E x \in Ids4 : s.lv[x] = "recycled" /\ Step(5, x, 0, Revive(s, {x}).st)
            \/ (\E x \in Ids4 : s.lv[x] = "recycled") /\ Step(6, 0, 0, Purge(s, Ids4))
            \/ s.lv[4] = "live" /\ Step(7, 4, 0, DynReeval(s, 4, {1, 2}))
            \/ \E g \in {1, 2}, M \in SUBSET Ids4 : Cardinality(M \ s.ref[g]["member"]) >= 2
